@@ -209,10 +209,15 @@ func (t *artTree) Get(key []byte) kv.ValueStruct {
 	if leaf == nil {
 		return kv.ValueStruct{}
 	}
-	if !kv.SameKey(key, leaf.leafKey(t.arena)) {
+	leafKey := leaf.leafKey(t.arena)
+	if !kv.SameKey(key, leafKey) {
 		return kv.ValueStruct{}
 	}
-	return leaf.loadValue(t.arena)
+	vs := leaf.loadValue(t.arena)
+	// The version is not part of the encoded value: report the one of the
+	// stored key so callers can compare hits from different sources.
+	vs.Version = kv.ParseTs(leafKey)
+	return vs
 }
 
 func (t *artTree) Set(key []byte, value kv.ValueStruct) {
